@@ -7,4 +7,5 @@ let table : (string * ((Model.z list -> Model.z list) * (Model.z list -> Model.z
   ("C15", (Model.run_c15, Model.chk_c15));
   ("C20", (Model.run_c20, Model.chk_c20));
   ("C12", (Model.run_c12, Model.chk_c12));
+  ("C18", (Model.run_c18, Model.chk_c18));
 ]
